@@ -160,7 +160,9 @@ def gen_payout_case(rng):
         elif k < 0.44:
             ops.append([4, signer(1), rng.choice(PAY_BANK_TOKS), amt(iv)])
         elif k < 0.56:
-            ops.append([5, signer(2), rng.choice(PAY_EM_TOKS + ((11,) if rng.random() < 0.08 else ()))])
+            # (a destination of the bank's mint: refused by the token program - MintMismatch under SPL Token; under Token-2022 the
+            #  refusal is IncorrectProgramId because the destination belongs to the other token program: not modelled, not generated)
+            ops.append([5, signer(2), rng.choice(PAY_EM_TOKS + ((11,) if emprog == 0 and rng.random() < 0.08 else ()))])
         elif k < 0.70:
             ops.append([6, rng.choice(PAY_EM_TOKS)])
         elif k < 0.75:
